@@ -150,6 +150,10 @@ class Solver:
             cells, ew = self.store.tabs[a[0]]
             idx = self.to_z3(a[1])
             return self._table(a[0], cells, ew, idx, a[1].w, w)
+        if op == 'i2f' or op == 'u2f':
+            x = self.to_z3(a[0]) if a[0].__class__ is Term else z3.BitVecVal(a[0], a[1])
+            f = z3.fpSignedToFP(z3.RNE(), x, z3.Float64()) if op == 'i2f' else z3.fpUnsignedToFP(z3.RNE(), x, z3.Float64())
+            return z3.fpToIEEEBV(f)
         if op == 'mulhi':
             x = z3.ZeroExt(w, c(a[0], w))
             y = z3.ZeroExt(w, c(a[1], w))
